@@ -22,14 +22,12 @@ static inline QLst duplicated(QLst src, int j, int k)
 }
 void h_perm(void)
 {
-  gb_map_next = 1; gb_map[0].n = 0;
   QXmppDiscoveryIqPrivate d1, d2; QXmppDiscoveryIq q1, q2; q1.d = &d1; q2.d = &d2;
   int mode = BOUNDED_MODE;    /* 0 identities exchanged, 1 features exchanged, 2 feature repeated, 3 fields exchanged, 4 values of one field exchanged */
   int k = nondet_int(), j = nondet_int();
   __CPROVER_assume(0 <= k && k < BL && 0 <= j && j < BL);
   /* identities */
-  /* the part of the info set that is not being changed is kept small (at most one element) */
-  int ni = nondet_int(); __CPROVER_assume(0 <= ni && ni <= (mode == 0 ? BL : 1));
+  int ni = nondet_int(); __CPROVER_assume(0 <= ni && ni <= BL);
   d1.identities = fresh_list(ni);
   for (int i = 0; i < BL; i++) {     /* identity i of the list is table entry i: any four strings (equal 4-tuples included) */
     d1.identities.e[i] = i < ni ? i : 0;
@@ -37,20 +35,20 @@ void h_perm(void)
   }
   d2.identities = mode == 0 ? exchanged(d1.identities, k) : d1.identities;
   /* features */
-  int n1 = nondet_int(); __CPROVER_assume(0 <= n1 && n1 <= (mode == 1 || mode == 2 ? BL : 1));
+  int n1 = nondet_int(); __CPROVER_assume(0 <= n1 && n1 <= BL);
   d1.features = fresh_list(n1);
   d2.features = mode == 1 ? exchanged(d1.features, k) : d1.features;
   if (mode == 2) { __CPROVER_assume(n1 < BL && j < n1 && k <= n1); d2.features = duplicated(d1.features, j, k); }
   /* form: absent in both, or the same fields (distinct vars) */
-  bool isnull = mode < 3 ? true : nondet_bool();
-  int nf = nondet_int(); __CPROVER_assume(0 <= nf && nf <= (mode == 3 ? BL : mode == 4 ? 2 : 1));
+  bool isnull = nondet_bool();
+  int nf = nondet_int(); __CPROVER_assume(0 <= nf && nf <= BL);
   QLst f1, f2; f1.n = nf; f2.n = nf;
   for (int i = 0; i < BL; i++) {
     f1.e[i] = i < nf ? i : 0;
     f2.e[i] = i < nf ? BL + i : 0;
-    BField a; a.key = small(); a.kind = nondet_int(); a.s = small(); a.b = nondet_bool();
+    BField a; a.key = small(); a.type = nondet_int(); a.kind = nondet_int(); a.s = small(); a.b = nondet_bool();
     int nv = nondet_int();
-    __CPROVER_assume(a.kind >= VK_INVALID && a.kind <= VK_BOOL && nv >= 0 && nv <= (mode == 4 && i == j ? BL : 1));
+    __CPROVER_assume(a.kind >= VK_INVALID && a.kind <= VK_BOOL && nv >= 0 && nv <= BL);
     for (int m = 0; m < BL; m++) __CPROVER_assume(m >= i || gb_field[m].key != a.key);       /* XEP-0004: vars are unique */
     a.list = fresh_list(nv);
     gb_field[i] = a;
